@@ -221,7 +221,12 @@ func runC25(c *Ctx) {
 				0: "field:ChainId(deref(param#4))", 1: "field:TrustLevel(param#0)", 3: "field:UnbondingPeriod(deref(param#4))",
 				4: "field:MaxClockDrift(param#0)", 5: "field:LatestHeight(deref(param#4))", 6: "field:ProofSpecs(deref(param#4))", 7: "field:UpgradePath(deref(param#4))",
 			}},
-			Req{Name: "trusting-period-own-or-scaled", Args: map[int]string{2: "~or(field:TrustingPeriod(param#0), ~in(field:TrustingPeriod(param#0)))"}},
+			// kept when unbonding does not shrink; otherwise own*new/old (decimal arithmetic, truncated)
+			Req{Name: "trusting-period-kept-or-scaled-by-unbonding-ratio", Args: map[int]string{2: "?tp"}, Any: [][]string{
+				{"~is(?tp, field:TrustingPeriod(param#0))", "le(field:UnbondingPeriod(param#0), field:UnbondingPeriod(param#4))"},
+				{"lt(field:UnbondingPeriod(param#4), field:UnbondingPeriod(param#0))",
+					"~is(?tp, call:sdkmath.LegacyDec.TruncateInt64(call:sdkmath.LegacyDec.Quo(call:sdkmath.LegacyDec.Mul(call:sdkmath.LegacyNewDec(call:time.Duration.Nanoseconds(field:TrustingPeriod(param#0))), call:sdkmath.LegacyNewDec(call:time.Duration.Nanoseconds(field:UnbondingPeriod(param#4)))), call:sdkmath.LegacyNewDec(call:time.Duration.Nanoseconds(field:UnbondingPeriod(param#0))))))"},
+			}},
 		)
 	}
 	_ = interp.New
